@@ -118,12 +118,13 @@ example : matchFormat 0x807fffff = formatOf FT_SOP2 ∧ matchFormat 0x80000000 =
     format table): every well-formed description — opcode in the decode table, operand codes in
     range and denoting an operand, a 32-bit literal present exactly when a source field says 255
     (or the opcode is a VOP2 "K" form) — encodes to bytes that decode, WHATEVER bytes follow and on
-    both architectures, to exactly the instruction the description denotes (`instOf`: name and
-    opcode of the table row, each operand at its role with its register count, the literal value,
+    both architectures, to exactly the instruction the description denotes on that architecture
+    (`instOf c`: name and opcode of the row the architecture's table returns — for a CDNA3
+    disassembler `Gen.cdna3Rows` first, e.g. VOP1 0x38 = `v_mov_b64` with 64-bit operands —, each operand at its role with its register count, the literal value,
     immediates and flags, size 4 or 8). So the decoder's field extraction is the inverse of the
     ISA's packing, no format shadows another on any well-formed word, and the literal is found. -/
 theorem decode_encode (c : Bool) (d : Desc) (hwf : wellFormed d = true) (t : List Nat) :
-    decode c (encode d ++ t) = .ok (instOf d) := by
+    decode c (encode d ++ t) = .ok (instOf c d) := by
   unfold wellFormed at hwf
   simp only [Bool.and_eq_true, beq_iff_eq] at hwf
   obtain ⟨⟨⟨hlk, hfo⟩, hl⟩, hlb⟩ := hwf
@@ -131,6 +132,10 @@ theorem decode_encode (c : Bool) (d : Desc) (hwf : wellFormed d = true) (t : Lis
   | none => simp [hrow] at hlk
   | some row =>
     obtain ⟨hr, hrf, hro⟩ := lookUp_some hrow
+    -- the row this architecture's table returns for the same (format, opcode)
+    obtain ⟨row', hrow', hrf', hro'⟩ := lookUpArch_of_lookUp (c := c) hrow
+    have hinst : instOf c d = instOfRow d row' := by simp [instOf, hrow']
+    rw [hinst]
     have hfill := List.all_eq_true.mp rows_fill row hr
     cases hf : formatOf row.ft with
     | none => simp [rowFill, hf] at hfill
@@ -140,56 +145,71 @@ theorem decode_encode (c : Bool) (d : Desc) (hwf : wellFormed d = true) (t : Lis
       rw [hro] at hfit
       rw [hrf] at hfft
       have hsec := fun l => encSecond_lt hfo hlb (l := l)
-      obtain ⟨f', hf', hall⟩ := rows_reachable_all_fillings row hr
+      obtain ⟨f', hf', hall0⟩ := rows_reachable_all_fillings row hr
       rw [hf] at hf'
       have hff := Option.some.inj hf'
       subst hff
+      have hall : ∀ w, w < 2 ^ 32 → (w ^^^ f.encoding) &&& f.mask = 0 → extractBits w f.opLo f.opHi = row'.opcode →
+          matchFormat w = some f ∧ lookUpArch c f.ft (extractBits w f.opLo f.opHi) = some row' := by
+        intro w hw henc hop
+        refine ⟨(hall0 w hw henc (by rw [hop, hro', hro])).1, ?_⟩
+        rw [hop, hro', hfft]
+        exact hrow'
       rcases fieldsOK_ft hfo with h | h | h | h | h | h | h | h | h
       · obtain ⟨a1, a2, a3, a4, a5⟩ := fmt_sop2 f hfm (hfft.trans h)
         rw [a2, a3] at hfit
-        refine roundtrip_of c d row f hfm hall hsec ?_ t
-        rw [a2, a3, a4, a5, hro]
-        exact enc_sop2 c d row f h (hfft.trans h) a1 hrow (by simpa using hfit) hfo hl
+        refine roundtrip_of c d row' f hfm _ hall hsec ?_ t
+        rw [a2, a3, a4, a5, hro']
+        exact enc_sop2 c d row' f h (hfft.trans h) a1 hro' (by simpa using hfit) hfo hl
       · obtain ⟨a1, a2, a3, a4, a5⟩ := fmt_sopk f hfm (hfft.trans h)
         rw [a2, a3] at hfit
-        refine roundtrip_of c d row f hfm hall hsec ?_ t
-        rw [a2, a3, a4, a5, hro]
-        exact enc_sopk c d row f h (hfft.trans h) a1 hrow (by simpa using hfit) hfo hl
+        refine roundtrip_of c d row' f hfm _ hall hsec ?_ t
+        rw [a2, a3, a4, a5, hro']
+        exact enc_sopk c d row' f h (hfft.trans h) a1 hro' (by simpa using hfit) hfo hl
       · obtain ⟨a1, a2, a3, a4, a5⟩ := fmt_sop1 f hfm (hfft.trans h)
         rw [a2, a3] at hfit
-        refine roundtrip_of c d row f hfm hall hsec ?_ t
-        rw [a2, a3, a4, a5, hro]
-        exact enc_sop1 c d row f h (hfft.trans h) a1 hrow (by simpa using hfit) hfo hl
+        refine roundtrip_of c d row' f hfm _ hall hsec ?_ t
+        rw [a2, a3, a4, a5, hro']
+        exact enc_sop1 c d row' f h (hfft.trans h) a1 hro' (by simpa using hfit) hfo hl
       · obtain ⟨a1, a2, a3, a4, a5⟩ := fmt_sopc f hfm (hfft.trans h)
         rw [a2, a3] at hfit
-        refine roundtrip_of c d row f hfm hall hsec ?_ t
-        rw [a2, a3, a4, a5, hro]
-        exact enc_sopc c d row f h (hfft.trans h) a1 hrow (by simpa using hfit) hfo hl
+        refine roundtrip_of c d row' f hfm _ hall hsec ?_ t
+        rw [a2, a3, a4, a5, hro']
+        exact enc_sopc c d row' f h (hfft.trans h) a1 hro' (by simpa using hfit) hfo hl
       · obtain ⟨a1, a2, a3, a4, a5⟩ := fmt_sopp f hfm (hfft.trans h)
         rw [a2, a3] at hfit
-        refine roundtrip_of c d row f hfm hall hsec ?_ t
-        rw [a2, a3, a4, a5, hro]
-        exact enc_sopp c d row f h (hfft.trans h) a1 hrow (by simpa using hfit) hfo hl
+        refine roundtrip_of c d row' f hfm _ hall hsec ?_ t
+        rw [a2, a3, a4, a5, hro']
+        exact enc_sopp c d row' f h (hfft.trans h) a1 hro' (by simpa using hfit) hfo hl
       · obtain ⟨a1, a2, a3, a4, a5⟩ := fmt_vop2 f hfm (hfft.trans h)
         rw [a2, a3] at hfit
-        refine roundtrip_of c d row f hfm hall hsec ?_ t
-        rw [a2, a3, a4, a5, hro]
-        exact enc_vop2 c d row f h (hfft.trans h) a1 hrow (by simpa using hfit) hfo hl
+        refine roundtrip_of c d row' f hfm _ hall hsec ?_ t
+        rw [a2, a3, a4, a5, hro']
+        exact enc_vop2 c d row' f h (hfft.trans h) a1 hro' (by simpa using hfit) hfo hl
       · obtain ⟨a1, a2, a3, a4, a5⟩ := fmt_vop1 f hfm (hfft.trans h)
         rw [a2, a3] at hfit
-        refine roundtrip_of c d row f hfm hall hsec ?_ t
-        rw [a2, a3, a4, a5, hro]
-        exact enc_vop1 c d row f h (hfft.trans h) a1 hrow (by simpa using hfit) hfo hl
+        refine roundtrip_of c d row' f hfm _ hall hsec ?_ t
+        rw [a2, a3, a4, a5, hro']
+        exact enc_vop1 c d row' f h (hfft.trans h) a1 hro' (by simpa using hfit) hfo hl
       · obtain ⟨a1, a2, a3, a4, a5⟩ := fmt_vopc f hfm (hfft.trans h)
         rw [a2, a3] at hfit
-        refine roundtrip_of c d row f hfm hall hsec ?_ t
-        rw [a2, a3, a4, a5, hro]
-        exact enc_vopc c d row f h (hfft.trans h) a1 hrow (by simpa using hfit) hfo hl
+        refine roundtrip_of c d row' f hfm _ hall hsec ?_ t
+        rw [a2, a3, a4, a5, hro']
+        exact enc_vopc c d row' f h (hfft.trans h) a1 hro' (by simpa using hfit) hfo hl
       · obtain ⟨a1, a2, a3, a4, a5⟩ := fmt_smem f hfm (hfft.trans h)
         rw [a2, a3] at hfit
-        refine roundtrip_of c d row f hfm hall hsec ?_ t
-        rw [a2, a3, a4, a5, hro]
-        exact enc_smem c d row f h (hfft.trans h) a1 hrow (by simpa using hfit) hfo
+        refine roundtrip_of c d row' f hfm _ hall hsec ?_ t
+        rw [a2, a3, a4, a5, hro']
+        exact enc_smem c d row' f h (hfft.trans h) a1 hro' (by simpa using hfit) hfo
+
+/-- non-vacuity of the architecture split: VOP1 opcode 0x38 (`7e047104`) is `v_mov_b64 v[2:3], v[4:5]`
+    for a CDNA3 disassembler and `v_movrelsd_b32 v2, v4` otherwise -/
+example :
+    (match decode true [0x04, 0x71, 0x04, 0x7e] with
+     | .ok i => (i.name, i.src0, i.dst) | _ => ("", none, none)) = ("v_mov_b64", some (vreg 260 4 2), some (vreg 258 2 2)) ∧
+    (match decode false [0x04, 0x71, 0x04, 0x7e] with
+     | .ok i => (i.name, i.src0, i.dst) | _ => ("", none, none)) = ("v_movrelsd_b32", some (vreg 260 4 0), some (vreg 258 2 0)) := by
+  decide +kernel
 
 /-- non-vacuity: well-formed descriptions exist in every covered format, with and without a
     literal (`s_add_u32 s1, 0xdeadbeef, s2`; `s_movk_i32`; `s_mov_b64 exec, vcc`; `s_cmp_eq_i32`;
@@ -296,6 +316,11 @@ theorem rows_have_decoders :
     (allRows.all fun r => formats.all fun f => f.ft != r.ft || ftSizes.contains (f.ft, f.size)) = true := by
   decide +kernel
 
+/-- the same for the rows a CDNA3 disassembler consults first (`initializeCDNA3DecodeTable`) -/
+theorem cdna3_rows_have_decoders :
+    (cdna3Rows.all fun r => formats.all fun f => f.ft != r.ft || ftSizes.contains (f.ft, f.size)) = true := by
+  decide +kernel
+
 /-- non-vacuity: 13 formats have decoders; VINTRP, MUBUF, MTBUF, MIMG, EXP have none (and no rows) -/
 example : ftSizes.length = 13 ∧ (FT_VINTRP, 4) ∉ ftSizes ∧ (FT_MUBUF, 8) ∉ ftSizes := by decide
 
@@ -311,7 +336,7 @@ theorem decode_no_notimpl_without_sdwa (c : Bool) (buf : List Nat) (h : decode c
   by_cases hl : buf.length < 4
   · simp [hl] at h
   · simp only [hl, if_false] at h
-    obtain ⟨a, b, w1, hw1, hu⟩ := decodeCore_notImpl rows_have_decoders _ _ _ h
+    obtain ⟨a, b, w1, hw1, hu⟩ := decodeCore_notImpl rows_have_decoders cdna3_rows_have_decoders _ _ _ h
     by_cases h8 : buf.length ≥ 8
     · simp only [h8, if_true, Option.some.injEq] at hw1
       subst hw1
@@ -322,14 +347,14 @@ theorem decode_no_notimpl_without_sdwa (c : Bool) (buf : List Nat) (h : decode c
     unsupported modifier bit does panic (the finding the harness counts as `outcome.notimpl`) -/
 theorem sdwa_unsupported_notimpl (c : Bool) (buf : List Nat) (h8 : 8 ≤ buf.length) (f : Format)
     (hm : matchFormat (le32 buf 0) = some f) (h2 : f.ft = FT_VOP2)
-    (hrow : (lookUp f.ft (extractBits (le32 buf 0) f.opLo f.opHi)).isSome = true)
+    (hrow : (lookUpArch c f.ft (extractBits (le32 buf 0) f.opLo f.opHi)).isSome = true)
     (h249 : extractBits (le32 buf 0) 0 8 = 249) (hu : sdwaUnsupported (le32 buf 4) = true) :
     decode c buf = .notImpl := by
   unfold decode decodeWith
   have hl : ¬ buf.length < 4 := by omega
   have h8' : buf.length ≥ 8 := h8
   simp only [hl, if_false, h8', if_true]
-  exact decodeCore_sdwa c _ _ f hm h2 hrow h249 hu
+  exact decodeCore_sdwa _ c _ _ f hm h2 hrow h249 hu
 
 /-- non-vacuity: `v_add_f32_sdwa` with the clamp bit -/
 example : sdwaUnsupported 0x2000 = true ∧ sdwaUnsupported 0x06060600 = false := by decide
